@@ -89,7 +89,7 @@ CATALOGUE = [
     ('reify_attributes', 4), ('indicate_branches', 3), ('canonicalize_roles', 2), ('queries', 4), ('or', 4), ('sub', 4),
     ('errors', 3), ('errors_union', 3), ('errors_islands', 2), ('role_algebra', 2), ('node_contexts', 3), ('appears_inverted', 3), ('alignments', 2),
     ('tree_nodes_walk', 2), ('graph_eq', 1), ('codec_api', 3), ('model_reify', 3), ('model_from_dict', 1),
-    ('raising_key', 3), ('model_copies', 2),
+    ('raising_key', 3), ('model_copies', 2), ('sniff_then_decode', 2),
     # derive, then mutate the derived object in place
     ('or_then_ior', 3), ('sub_then_isub', 3), ('copy_then_top', 2), ('configure_then_rearrange', 3),
     ('configure_then_reset_variables', 3), ('or_then_sort', 2), ('indicate_then_ior', 2),
@@ -403,6 +403,14 @@ def run_op(w, op, local):
         layout.rearrange(t2, key=model.alphanumeric_order)
         out.append(t2)
         return out
+    if name == 'sniff_then_decode':
+        # format sniffing: try the triple-conjunction parser first, fall back to PENMAN
+        try:
+            first = penman.parse_triples(text)
+        except Exception as e:
+            first = digest.canon_exc(e)[:2]
+        return [first, penman.decode(text, model=model), penman.parse_triples(w.triple_texts[x])
+                if '"' not in w.triple_texts[x] else None]
     if name == 'model_copies':
         # a model that went through copy.copy / copy.deepcopy / pickle (what a worker process receives) must
         # behave exactly like the original: same tables in the same order, same answers
@@ -892,8 +900,8 @@ def subprocess_pair(trace, res):
             argv = gmodels.cli_args(spec, os.path.join(d, 'model.json'))
             if spec['kind'] == 'custom':
                 import json
-                with open(os.path.join(d, 'model.json'), 'w') as fh:
-                    json.dump(spec['spec'], fh)
+                with open(os.path.join(d, 'model.json'), 'w', encoding='utf-8') as fh:
+                    json.dump(spec['spec'], fh, ensure_ascii=False)
             r = Rng(trace.get('run', 0) * 31 + mi)
             opts = {'indent': r.pick([-1, None, 2]), 'compact': r.chance(0.3)}
             for f in ('canonicalize_roles', 'reify_edges', 'dereify_edges', 'reify_attributes', 'indicate_branches'):
